@@ -86,7 +86,7 @@ impl<'a> StateMachine<'a> {
     //@ fn src/handlers/diff_header_diff.rs StateMachine::handle_diff_header_diff_line spec=diff_header.handle_diff_line
     //@before <<<self.handle_pending_line_with_diff_name()?;>>>| assert(/* @C10,C14:hdl.pending.header.is.written.with.the.previous.sections.data */ self.diff_line == old(self).diff_line && self.minus_file == old(self).minus_file && self.plus_file == old(self).plus_file && self.mode_info == old(self).mode_info && self.current_file_pair == old(self).current_file_pair && self.handled_diff_header_header_line_file_pair == old(self).handled_diff_header_header_line_file_pair);
     //@ fn src/handlers/mod.rs StateMachine::handle_additional_cases spec=diff_header.handle_additional_cases
-    //@before <<<self.state = to_state;>>>| assert(/* @C10,C14:the.mode.information.of.the.section.before.has.gone.into.that.sections.own.header.before.the.header.of.this.line.is.written */ (old(self).state is DiffHeader || old(self).source == Source::DiffUnified) && !(self.config.file_style.is_omitted && !self.config.color_only) ==> self.mode_info@.len() == 0);
+    //@before <<<self.state = to_state;>>>| assert(/* @C10,C14:the.mode.information.of.the.section.before.has.gone.into.that.sections.own.header.before.the.header.of.this.line.is.written */ old(self).state is DiffHeader && !(self.config.file_style.is_omitted && !self.config.color_only) ==> self.mode_info@.len() == 0);
 }
 
 } // verus!
